@@ -75,6 +75,12 @@ Lemma run_token_word init body c a r :
 Proof.
   intros Hc Ha Hr. unfold run_token. rewrite Hc, (span_app body a r Ha Hr). cbn. reflexivity.
 Qed.
+Lemma run_token_run init body chk c a r :
+  memc c init = true -> all_in body a -> nohead body r ->
+  run_token init body 1 0 chk (c :: a ++ r) = POk (At r) [TStr (c :: a)].
+Proof.
+  intros Hc Ha Hr. unfold run_token. rewrite Hc, (span_app body a r Ha Hr). cbn. rewrite andb_false_r. reflexivity.
+Qed.
 Lemma run_token_fail init body wmin wmax chk c r :
   memc c init = false -> run_token init body wmin wmax chk (c :: r) = PFail.
 Proof. intros H. unfold run_token. rewrite H. reflexivity. Qed.
